@@ -86,12 +86,27 @@ func (p *PublicKey) Public() slip10.Key {
 // Shift derives a new PublicKey using the provided additive shift.
 // It returns ErrInvalidKey if the shift leads to an invalid key.
 func (p *PublicKey) Shift(bytes []byte) (slip10.Key, error) {
-	if new(big.Int).SetBytes(bytes).Cmp(p.Curve.Params().N) >= 0 {
+	sc := new(big.Int).SetBytes(bytes)
+	if sc.Cmp(p.Curve.Params().N) >= 0 {
 		return nil, slip10.ErrInvalidKey
+	}
+	// the zero shift corresponds to adding the point at infinity, which leaves the key unchanged
+	if sc.Sign() == 0 {
+		return &PublicKey{p.X, p.Y, p.Curve}, nil
 	}
 
 	x2, y2 := p.Curve.ScalarBaseMult(bytes)
-	x, y := p.Curve.Add(p.X, p.Y, x2, y2)
+	var x, y *big.Int
+	switch {
+	case x2.Cmp(p.X) != 0:
+		x, y = p.Curve.Add(p.X, p.Y, x2, y2)
+	case y2.Cmp(p.Y) == 0:
+		// both points are equal, the general addition formula is not applicable
+		x, y = p.Curve.Double(p.X, p.Y)
+	default:
+		// both points are inverse to each other, their sum is the point at infinity which is invalid
+		return nil, slip10.ErrInvalidKey
+	}
 	// the point at infinity (0, 0) is invalid
 	if x.Sign() == 0 && y.Sign() == 0 {
 		return nil, slip10.ErrInvalidKey
